@@ -23,11 +23,11 @@ pub(super) struct Pdu {
     pub(super) event_id: OwnedEventId,
     room_id: OwnedRoomId,
     sender: OwnedUserId,
-    event_type: TimelineEventType,
-    state_key: Option<String>,
+    pub(super) event_type: TimelineEventType,
+    pub(super) state_key: Option<String>,
     content: Box<RawJsonValue>,
     prev_events: Vec<OwnedEventId>,
-    auth_events: Vec<OwnedEventId>,
+    pub(super) auth_events: Vec<OwnedEventId>,
     redacts: Option<OwnedEventId>,
     ts: u64,
 }
